@@ -9,7 +9,7 @@ from mirsym.values import b_and, b_or, b_not
 from harness.base import Instance, run_instances
 
 CLI, CORE = "ragc-cli", "ragc-core"
-NAMES = [b"a1", b"a2", b"b"]
+NAMES = [b"a1", b"b", b"a2"]          # archive order: the two samples sharing the prefix "a" are not adjacent
 LETTERS = b"ACGTNRYSWKMBDHVU"
 
 
@@ -20,7 +20,7 @@ class Getset(Instance):
         Instance.__init__(self, name)
         self.maxreq, self.mode = maxreq, mode
         self.required_witnesses = ("multi", "single", "unknown") if mode == "names" else ("multi", "single", "no_match")
-        self.bounds = {"archive": "3 samples (a1, a2, b), one contig each, 1..3 symbolic bases over all codes 0..15 and 30", "request": (f"every list of 1..{maxreq} names over the 3 samples + 1 unknown name (repeats allowed)" if mode == "names" else "every prefix in {a, a1, b, x, ''}"),
+        self.bounds = {"archive": "3 samples in the order a1, b, a2, one contig each, 1..3 symbolic bases over all codes 0..15 and 30", "request": (f"every list of 1..{maxreq} names over the 3 samples + 1 unknown name (repeats allowed)" if mode == "names" else "every prefix in {a, a1, b, x, ''}"),
                        "destination": "-o file and stdout"}
 
     def setup(self, e):
@@ -34,12 +34,11 @@ class Getset(Instance):
             i = NAMES.index(nm)
             return ok(VecObj([Agg([e_.new_bytes(b"ctg_" + nm, "String"), VecObj(list(e_.h["seqs"][i]))], ty="tuple")]))
 
-        def with_prefix(e_, c, a):
-            p = e_.bytes_of(a[1])
-            return VecObj([e_.new_bytes(n, "String") for n in NAMES if n.startswith(p)])
+        def list_samples(e_, c, a):
+            return VecObj([e_.new_bytes(n, "String") for n in NAMES])
         e.stub(r"(^|::)Decompressor::open$", d_open)
         e.stub(r"(^|::)Decompressor::get_sample$", get_sample)
-        e.stub(r"(^|::)Decompressor::list_samples_with_prefix$", with_prefix)
+        e.stub(r"(^|::)Decompressor::list_samples$", list_samples)        # list_samples_with_prefix itself is the real code
         e.stub(r"(^|::)Decompressor::close$", lambda e_, c, a: ok(UNIT))
 
     def expected_for(self, e, i):
@@ -162,5 +161,5 @@ THOROUGH = [_reg(Getset("T_names3", 3, "names")).name, "prefix", "create_flags"]
 def run(ctx):
     insts = [INSTANCES[n] for n in (QUICK if ctx["tier"] == "quick" else THOROUGH)]
     return run_instances("C17", "harness.C17", insts, ctx,
-                         assumptions=["the archive is a model: Decompressor::open/get_sample/list_samples_with_prefix/close answer from a symbolic catalogue (reader correctness: C07/C08)",
+                         assumptions=["the archive is a model: Decompressor::open/get_sample/list_samples/close answer from a symbolic catalogue (reader correctness: C07/C08)",
                                       "fn main() -> Result maps Err to a non-zero exit status (std); clap parsing, create's flag dispatch and process exit plumbing are outside this check"])
